@@ -15,7 +15,7 @@ from mcx.core import Check
 from mcx.explore import explore
 from mcx.seams import owned_random
 
-DISPL = ('generic', 'along_bond', 'tiny', 'large', 'zero')     # zero: the bonds must still be restored to the table
+DISPL = ('generic', 'along_bond', 'tiny', 'large', 'zero', 'almost_onto')     # zero: the bonds must still be restored to the table
 # geom_rev: neighbour lists in reverse (descending) order; fixed_keysdesc: the dictionary filled from the last atom to
 # the first (its keys do not iterate as 0, 1, 2, ...)
 TABLES = ('geom', 'fixed', 'geom_rev', 'fixed_keysdesc')
@@ -45,6 +45,9 @@ def displacement(kind, pos, adj, atom, seed):
     if kind == 'along_bond':
         nb = min(adj[atom])
         return 0.45 * (pos[nb] - pos[atom])
+    if kind == 'almost_onto':          # lands 1e-9 bond lengths short of a bonded neighbour (not on it)
+        nb = min(adj[atom])
+        return (1.0 - 1e-9) * (pos[nb] - pos[atom])
     if kind == 'tiny':
         return np.array([1e-6, -2e-6, 1.5e-6])
     if kind == 'zero':
@@ -102,6 +105,8 @@ class C07(Check):
         for n in range(2, 6):
             u.append({'k': 'displ', 'n': n})
         u.append({'k': 'randatom'})
+        u.append({'k': 'single'})
+        self.bounds['unbonded_atoms'] = 'the one-atom tree and a lone atom next to a 2-/3-atom tree (bond table entry [])'
         u.append({'k': 'edit', 'nmax': 5})
         self.bounds['table_edit_history'] = ('every tree up to 5 atoms x every moved atom: move, move again from the same '
                                              'input, move a view of a result, move an ndarray-subclass instance, two '
@@ -147,6 +152,10 @@ class C07(Check):
                 for sigma in (0.1, 0.5, 2.0):
                     yield {'k': 'displ', 'n': n, 'edges': edges, 'sigma': sigma}
                 yield {'k': 'displ', 'n': n, 'edges': edges, 'sigma': 0.5, 'table': 'geom_rev'}
+            if n >= 4:      # atoms with three or more neighbours in the far corner of a big box (coordinates of thousands of nm)
+                for edges in en.all_trees(n):
+                    if {(0, 1), (0, 2), (0, 3)} <= {tuple(sorted(e)) for e in edges}:
+                        yield {'k': 'displ', 'n': n, 'edges': edges, 'sigma': 0.5, 'far': 1, 'atom': 0}
             if n >= 4:      # star-like atoms with a narrow triple of first neighbours
                 for edges in en.all_trees(n):
                     if {(0, 1), (0, 2), (0, 3)} <= {tuple(sorted(e)) for e in edges}:
@@ -159,6 +168,10 @@ class C07(Check):
             for n in range(2, unit['nmax'] + 1):
                 for edges in en.all_trees(n):
                     yield {'k': 'edit', 'n': n, 'edges': edges}
+        elif k == 'single':
+            for extra in (0, 2, 3):
+                for dk in DISPL[:5]:
+                    yield {'k': 'single', 'n': 1 + extra, 'edges': [[i, i + 1] for i in range(1, extra)], 'dk': dk}
         elif k == 'randatom':
             for n in (2, 3, 4):
                 for edges in en.all_trees(n):
@@ -230,6 +243,28 @@ class C07(Check):
                            cls=f"{case.get('fam') or ('cyclic' if case.get('cyclic') else 'tree')}/n{n}/{case['table']}/{dk}")
                     if sig:
                         R.violation(sig, cdesc, det)
+        elif case['k'] == 'single':
+            # atom 0 has no bond at all (the one-atom tree; a lone atom beside a small tree): it is displaced by exactly
+            # the requested vector, nothing else moves
+            info = {0: []}
+            info.update(bonds_table(n, edges, pos, 'geom'))
+            d = displacement(case['dk'] if case['dk'] != 'along_bond' else 'generic', pos, adj, 0, seed)
+            before = pos.copy()
+            try:
+                out = np.asarray(move_mol_atom(pos, info, 0, d.copy()), float)
+            except Exception as exc:
+                R.case(case, nontrivial=False, outcome='exception', cls='single')
+                R.violation('move/exception', case, repr(exc))
+                return
+            R.case(case, nontrivial=True, cls=f'unbonded-atom/n{n}', outcome='unbonded-atom-moved')
+            if not np.array_equal(pos, before):
+                R.violation('move/input-modified', case, 'input array changed')
+            elif out.shape != before.shape or not np.all(np.isfinite(out)):
+                R.violation('move/non-finite', case, out.tolist())
+            elif np.abs(out[0] - (before[0] + d)).max() > 1e-12:
+                R.violation('move/moved-atom-not-displaced-by-displ', case, (out[0] - before[0]).tolist())
+            elif n > 1 and not np.array_equal(out[1:], before[1:]):
+                R.violation('move/other-component-moved', case, 'atoms outside the component changed')
         elif case['k'] == 'edit':
             self._edit(case, R, pos, edges, move_mol_atom)
         elif case['k'] == 'displ':
@@ -240,6 +275,8 @@ class C07(Check):
                 pos[1] = pos[0] + np.array([-0.1, -0.1, 0.3])
                 pos[2] = pos[1] + np.array([0.15, 0.0, 0.0])
                 pos[3] = pos[1] + np.array([0.3, 0.02, 0.0])
+            if case.get('far'):
+                pos = pos * 0.2 + np.array([2600.0, 1400.0, 3900.0])      # bonds of ~0.15 nm, 4700 nm from the origin
             info = bonds_table(n, edges, pos, case.get('table', 'geom'))
             atoms = [case['atom']] if 'atom' in case else range(n)
             for atom in atoms:
